@@ -5,9 +5,54 @@ from engine import runner
 from checks import corpus, asserts
 
 
+def fam_first_write_dies():
+    """the first write for a new consumer dies on a database error inside the
+    allocation-writing statements: afterwards the consumer exists iff it has
+    allocations, and a write carrying consumer_generation null is accepted"""
+    from engine import app, inject, symex
+    from engine.runner import Family, finish, obligation
+    from engine.scenario import U, CONS
+    import sqlalchemy as sa
+
+    def only(stmt):
+        return inject.is_dml(stmt) and stmt.table.name in (
+            'allocations', 'resource_providers', 'inventories')
+
+    def path(ctx):
+        app.setup()
+        with corpus.std_world(ctx, c1='absent') as w:
+            hook, un = inject.install_faults(w, kinds=('dberror',),
+                                             only=only)
+            body = {'allocations': {U(1): {'resources': {
+                'VCPU': ctx.int('amt', 1)}}}, 'project_id': 'proj',
+                'user_id': 'user', 'consumer_generation': None}
+            try:
+                r = app.call('PUT', '/allocations/' + CONS(1), body,
+                             version='1.36')
+            finally:
+                un()
+            if not hook.injected:
+                return finish(ctx, 'no-fault:%d' % r.status)
+            pre = post = w.dump()
+            asserts.consumer_iff_allocations(ctx, corpus.Shape(
+                'first-write-dies', None, kind='alloc'), w, pre, post, r)
+            again = app.call('PUT', '/allocations/' + CONS(1), body,
+                             version='1.36')
+            if again.status == 409 and 'generation' in (
+                    again.error_detail or ''):
+                runner.violation(ctx, 'creatable-after-failed-first-write',
+                                 'after a first write that died (%d) a write '
+                                 'with consumer_generation null is refused: '
+                                 '%s' % (r.status, again.error_detail[:120]))
+            return finish(ctx, 'fault:%d,%d' % (r.status, again.status))
+    return Family('first-write-dies', path, bounds=dict(
+        fault='one generic database error at any INSERT/UPDATE/DELETE on '
+        'allocations / resource_providers of the first write'))
+
+
 def families(tier):
     return [corpus.make_family(s, [asserts.consumer_iff_allocations, asserts.consumer_attributes, asserts.no_5xx])
-            for s in corpus.shapes(tier)]
+            for s in corpus.shapes(tier)] + [fam_first_write_dies()]
 
 
 if __name__ == '__main__':
